@@ -910,6 +910,38 @@ class Block:
         blocks[tuple(tkeys)] = vd
         return Block(sp, parts, blocks)
 
+    def zero_region(self, offsets, sizes):
+        """self[o_k : o_k + s_k] = 0 : refine the partitions at the slice boundaries (constant blocks split) and drop the blocks inside"""
+        sp = self.space
+        cur = self
+        target = []
+        for k, (o, sz) in enumerate(zip(offsets, sizes)):
+            if o is None:
+                target.append(None)
+                continue
+            o, sz = sp.facts.norm(P.of(o)), sp.facts.norm(P.of(sz))
+            total = ZERO
+            for x in cur.parts[k]:
+                total = total + x
+            total = sp.facts.norm(total)
+            want = [x for x in (o, sz, sp.facts.norm(total - o - sz)) if True]
+            want = [x for x in want if x != ZERO]
+            ref = _common_refinement(sp, cur.parts[k], want)
+            if ref is None:
+                raise Unmodelled(f"slice [{o!r}:{(o + sz)!r}) cannot be ordered against the partition {cur.parts[k]}")
+            cur = cur.refine_axis(k, ref)
+            # indices of the segments covered by [o, o+sz)
+            acc, idxs = ZERO, set()
+            for j, x in enumerate(cur.parts[k]):
+                lo = sp.facts.norm(acc)
+                acc = acc + x
+                if sp.facts.compare(lo, ">=", o) is True and sp.facts.compare(sp.facts.norm(acc), "<=", sp.facts.norm(o + sz)) is True:
+                    idxs.add(j)
+            target.append(idxs)
+        blocks = {key: d for key, d in cur.blocks.items()
+                  if not all(t is None or key[k] in t for k, t in enumerate(target))}
+        return Block(sp, cur.parts, blocks)
+
     def canon(self) -> str:
         sp = self.space
         ps = "|".join("[" + ",".join(repr(sp.facts.norm(x)) for x in p) + "]" for p in self.parts)
@@ -934,13 +966,12 @@ def _common_refinement(sp: Space, pa, pb):
     i = j = 0
     while i < len(ba) or j < len(bb):
         if i < len(ba) and j < len(bb):
-            c = sp.facts.compare(ba[i], "<", bb[j])
-            e = sp.facts.compare(ba[i], "==", bb[j])
-            if e is True:
+            sg = sp.facts.sign(ba[i] - bb[j])
+            if sg == "0":
                 merged.append(ba[i]); i += 1; j += 1
-            elif c is True:
-                merged.append(ba[i]); i += 1
-            elif c is False and e is False:
+            elif sg in ("-", "<=0"):
+                merged.append(ba[i]); i += 1        # possibly equal: the next segment may be empty
+            elif sg in ("+", ">=0"):
                 merged.append(bb[j]); j += 1
             else:
                 return None
